@@ -363,7 +363,16 @@ ConcCase gen_conc(const std::string& property, const std::string& tier, uint64_t
     }
     c.tasks.push_back(ops);
   }
-  if (!is_c14 && wl.chance(0.06)) c.factory_reenters = static_cast<int>(wl.range(1, 4));
+  // Re-entrant factories (the factory itself calls into cctz) are generated only on request: no property says a
+  // factory may do that, upstream's older single-lock design deadlocks on it as well, and a check must not raise an
+  // alarm on a tree whose only "fault" is a non-recursive load lock.  VERIF_REENTRANT_FACTORY=1 turns them on
+  // (the draws are made either way so that the rest of the case does not depend on the setting).
+  {
+    static const bool enabled = [] { const char* e = secure_getenv("VERIF_REENTRANT_FACTORY"); return e && *e == '1'; }();
+    bool pick = wl.chance(0.06);
+    int mode = static_cast<int>(wl.range(1, 4));
+    if (!is_c14 && pick && enabled) c.factory_reenters = mode;
+  }
   if (c.factory_reenters == 3) { c.tz_env_zone = -2; }
   if (wl.chance(0.004)) {
     Op b; b.k = O_BULK;
